@@ -124,13 +124,23 @@ CHECKS = {
         "components": ["repo", "recover", "next"],
         "runs": lambda tier: [{"args": ["repo", "-impl", impl, "-profile", "recover", "-n",
                                         str({"quick": 300, "thorough": 5000, "widen": 2000}[tier]), "-len", "40"]}
-                              for impl in ("ent", "entfile")],
+                              for impl in ("ent", "entfile")] +
+                             [{"args": ["crash", "-n", str({"quick": 2, "thorough": 300, "widen": 20}[tier]), "-len", "30",
+                                        "-random", "20"], "seed_off": 5}],
         "rule": "lifecycle histories on ent/SQLite (in-memory and file-backed) interleaved with RevertDispatched / "
                 "CancelDispatched / DeleteEnded, compared with Spec.Repo after every op (result, full dump, GetNext); "
-                "the reverted tasks' later behaviour is checked by the C01/C12 monitors on the same traces",
-        "trusted_base": COMMON_TB + ["SQLite durability across SIGKILL is NOT covered by this run (see DESIGN: partial)"],
+                "the reverted tasks' later behaviour is checked by the C01/C12/C13 monitors on the same traces; crash runs: a "
+                "child process executes a generated mutation workload on a SQLite file acknowledging every completed "
+                "operation on a pipe and is SIGKILLed after every k-th acknowledgement and at random instants inside "
+                "operations; the parent reopens the file and the driver demands the dump to equal the model after the "
+                "acknowledged operations, with the one in flight fully applied or absent, then runs Revert/Cancel"
+                "Dispatched and a continued workload against the specification",
+        "trusted_base": COMMON_TB + ["SQLite's durability of an acknowledged auto-committed statement across SIGKILL and its "
+                                     "atomic application of an unacknowledged one are sampled by the kill runs, not proved",
+                                     "the scheduler + worker-pool pipeline kill (side-effect log across restarts) is not built"],
         "assumptions": REPO_ASSUME,
-        "claim": "PARTIAL: the recovery logic is proved and tied; crash durability (kill points) is not part of this check yet.",
+        "claim": "PARTIAL: the recovery logic is proved and tied; durability is sampled by SIGKILL runs at every operation "
+                 "boundary and at random instants (process kill only: no power-loss / fsync model).",
     },
     "C15": {
         "family": "cron", "level": "proof", "modules": ["Gk.Props.C15"], "components": ["cron"],
